@@ -1806,6 +1806,7 @@ def run(ctx):
         "by writers that raise, the root logger at DEBUG, `random` reseeded between bursts with the real entropy source, a moving "
         "clock, warnings as errors, and in a child `python -O` process whose first calls are rejected ones and whose descriptors 1 "
         "and 2 are finally broken; every answer must equal the one of the ordinary run. "
+        " ROUND 6, READ-ONLY CALLS: observer-style calls found by introspection on the live objects (repr / str / len / bool / == / hash / copy / every attribute, debug(), get_* / is_* / has_* / match_* without auto-create, the log helpers, on every library object reachable) are interleaved into histories: the same history runs without and with them in fresh objects; each call must leave the deep picture of the objects, their class / module data and the stubs' counters unchanged, every answer, the final state and a final sweep through the whole catalogue (made, and itself checked, at the end of every such history) must be identical, and the model is driven with the history without the calls; reviewed exclusions (calls that advance by design) are listed in harness/ro_calls.py EXCLUDED. "
         "A case is one history under one observer configuration and one ambient condition; distinct = distinct of those."
     )
     ctx.trusted_base += [
